@@ -12,7 +12,7 @@ from .common import explain, has_call, has_stmt
 
 def run(ctx: Ctx) -> None:
     repo = ctx.repo
-    ctx.rule("C20.R1", "_get_trusted_value returns the value trusted_hops from the right when at least that many values exist, else None; None when trusted_hops == 0 (decision table over value lists and hop counts)", floor=2)
+    ctx.rule("C20.R1", "_get_trusted_value returns the value trusted_hops from the right when at least that many values exist, else None; None when trusted_hops == 0 (decision table over value lists and hop counts)", floor=1)
     ctx.rule("C20.R2", "ProxyFixMiddleware copies the scope (deepcopy) before any write into it and hands the copy to the application; untouched scopes pass through", floor=4)
     ctx.rule("C20.R3", "dispatcher: mounts tried in order, first prefix match wins, path rewritten to path[len(prefix):] or '/', otherwise 404", floor=4)
     ctx.rule("C20.R4", "lifespan fan-out: each *.complete is forwarded only when all mounts' flags OF THE SAME STAGE are set, after setting this mount's flag (asyncio and trio)", floor=4)
@@ -22,32 +22,33 @@ def run(ctx: Ctx) -> None:
     # ---- R1: decision table by interpretation of the function on small domains
     tv = repo.func("middleware.proxy_fix", "_get_trusted_value")
     w = "middleware.proxy_fix:_get_trusted_value"
-    src = norm(tv)
-    # structural part: values collected from all matching headers, split on commas, in order
-    ext = [c for c in calls(tv) if isinstance(c.func, ast.Attribute) and c.func.attr == "extend" and isinstance(c.func.value, ast.Name)]
-    lname = ext[0].func.value.id if ext else "values"
-    ok = len(ext) == 1 and "header_value.split(b',')" in norm(ext[0]) and ".strip()" in norm(ext[0]) and any(a == ("header_name.lower() == name", True) for a in guard_atoms(ext[0]))
-    ctx.check("C20.R1", w, "values = all comma-separated items of all matching headers, in order", ok, "forwarding values must be collected left to right across repeated headers", ext[0] if ext else tv)
-    # selection part: evaluate everything after the collection loop as a function of (values, trusted_hops)
-    loop_end = max((n.end_lineno for n in walk_local(tv) if isinstance(n, ast.For)), default=0)
-    tail = [s for s in tv.body if s.lineno > loop_end]
-    head = [s for s in tv.body if s.lineno <= loop_end and not isinstance(s, ast.For) and not (isinstance(s, ast.Assign) and norm(s.targets[0]) == lname)]
-    fn = ast.FunctionDef(name="sel", args=tv.args, body=head + tail, decorator_list=[], lineno=0)
+    # the whole function is interpreted on sample header lists: values are collected left to right
+    # across repeated (case-insensitive) header lines, split on commas and stripped; the value
+    # `trusted_hops` from the right is returned when that many exist, else None
+    pn = [a.arg for a in tv.args.args]
+    layouts = []
+    for n in range(0, 6):
+        vals = [f"v{i}" for i in range(n)]
+        one = [(b"X-Fwd", ", ".join(vals).encode())] if vals else []
+        layouts.append((vals, [(b"other", b"zz")] + one))
+        if n >= 2:
+            layouts.append((vals, [(b"x-fwd", ",".join(vals[:1]).encode()), (b"other", b"o1, o2"), (b"X-FWD", " , ".join(vals[1:]).encode())]))
     bad = None
+    cases = 0
     try:
         for hops in range(0, 5):
-            for n in range(0, 6):
-                vals = tuple(f"v{i}" for i in range(n))
-                got = eval_function(fn, {lname: vals, "trusted_hops": hops, "name": b"x", "headers": ()})
-                want = None if hops == 0 or n < hops else vals[-hops]
+            for vals, hdrs in layouts:
+                cases += 1
+                got = eval_function(tv, dict(zip(pn, [b"x-fwd", hdrs, hops])))
+                want = None if hops == 0 or len(vals) < hops else vals[-hops]
                 if got != want:
-                    bad = (hops, vals, got, want)
+                    bad = (hops, hdrs, got, want)
                     raise StopIteration
     except StopIteration:
         pass
-    except Unknown as u:
+    except Exception as u:  # Unknown construct / raised
         bad = ("unsupported construct", str(u), None, None)
-    ctx.check("C20.R1", w, "selection table: hops 0..4 x 0..5 values", bad is None, f"trusted_hops={bad[0]} values={bad[1]}: returns {bad[2]!r}, expected {bad[3]!r} (a client-supplied value is trusted, or a trusted one ignored)" if bad else "", tv, sample={"hops": "0..4", "values": "0..5", "cases": 30})
+    ctx.check("C20.R1", w, "selection table: hops 0..4 x 0..5 values (one and two header lines)", bad is None, f"trusted_hops={bad[0]} headers={bad[1]}: returns {bad[2]!r}, expected {bad[3]!r} (a client-supplied value is trusted, or a trusted one ignored)" if bad else "", tv, sample={"hops": "0..4", "values": "0..5", "cases": cases})
 
     # ---- R2
     pf = repo.func("middleware.proxy_fix", "ProxyFixMiddleware.__call__")
